@@ -9,6 +9,8 @@ UNIT = dict(
     extra_params=["clk", "tr"],
     fns={
         "Fallback::new": dict(),
+        "FallbackError::clone@Clone": dict(file="error"),
+        "FallbackStrategy::clone@Clone": dict(rules=[("sub", "R10-arc-clone", r"Arc::clone\((\w+)\)", r"\1.vx_clone()", 5)]),
         "Fallback::clone@Clone": dict(),
         "Fallback::poll_ready@Service": dict(rules=[("R10p", "FallbackError::Inner")]),
         "Fallback::call@Service": dict(rules=[
